@@ -128,7 +128,15 @@ func ParsePutCommand(cmd redcon.Command) (*Put, error) {
 
 	args := cmd.Args[4:]
 	for len(args) > 0 {
-		switch arg := strings.ToUpper(util.BytesToString(args[0])); arg {
+		arg := strings.ToUpper(util.BytesToString(args[0]))
+		switch arg {
+		case "PX", "EX", "EXAT", "PXAT":
+			// These options take a value.
+			if len(args) < 2 {
+				return nil, fmt.Errorf("%w: %s needs a numerical argument", ErrInvalidArgument, arg)
+			}
+		}
+		switch arg {
 		case "NX":
 			p.SetNX()
 			args = args[1:]
@@ -293,7 +301,7 @@ func (g *GetEntry) Command(ctx context.Context) *redis.StringCmd {
 }
 
 func ParseGetEntryCommand(cmd redcon.Command) (*GetEntry, error) {
-	if len(cmd.Args) < 2 {
+	if len(cmd.Args) < 3 {
 		return nil, errWrongNumber(cmd.Args)
 	}
 
@@ -608,10 +616,16 @@ func ParseScanCommand(cmd redcon.Command) (*Scan, error) {
 	for len(args) > 0 {
 		switch arg := strings.ToUpper(util.BytesToString(args[0])); arg {
 		case "MATCH":
+			if len(args) < 2 {
+				return nil, fmt.Errorf("%w: %s needs an argument", ErrInvalidArgument, arg)
+			}
 			s.SetMatch(util.BytesToString(args[1]))
 			args = args[2:]
 			continue
 		case "COUNT":
+			if len(args) < 2 {
+				return nil, fmt.Errorf("%w: %s needs a numerical argument", ErrInvalidArgument, arg)
+			}
 			count, err := strconv.Atoi(util.BytesToString(args[1]))
 			if err != nil {
 				return nil, err
@@ -622,6 +636,9 @@ func ParseScanCommand(cmd redcon.Command) (*Scan, error) {
 		case "RC":
 			s.SetReplica()
 			args = args[1:]
+		default:
+			// An unknown option must not be skipped silently: args would never shrink.
+			return nil, fmt.Errorf("%w: %s", ErrInvalidArgument, arg)
 		}
 	}
 
@@ -865,7 +882,7 @@ func ParseLockCommand(cmd redcon.Command) (*Lock, error) {
 	// EX or PX are optional.
 	if len(cmd.Args) > 4 {
 		if len(cmd.Args) == 5 {
-			return nil, fmt.Errorf("%w: %s needs a numerical argument", ErrInvalidArgument, util.BytesToString(cmd.Args[5]))
+			return nil, fmt.Errorf("%w: %s needs a numerical argument", ErrInvalidArgument, util.BytesToString(cmd.Args[4]))
 		}
 
 		switch arg := strings.ToUpper(util.BytesToString(cmd.Args[4])); arg {
